@@ -25,6 +25,7 @@
    PWhite), the client's side (Properties/C03.v), values (C01/C02). *)
 From RV Require Import Lib.Res Repl.ClientTicks Repl.World Vis.Visibility Repl.Server Repl.ServerSpec
   Repl.StructSpec Repl.Struct_proofs Repl.StructOps_proofs Repl.StructRun_proofs.
+From RV Require Repl.Client Repl.Sys.          (* only for the end-to-end example at the end *)
 Open Scope N_scope.
 
 (* ---- 1. every game operation preserves the invariant of every client (running server) ---- *)
@@ -227,3 +228,50 @@ Example C03S_ex_session :
   ex_view (grun ex_cfg_auth ginit (ex_session ++ [fr true []]))
     = Some ([(0, [(2, [3]); (1, [0])])], [(1, [0]); (2, [3])], true, [], []).
 Proof. vm_compute. repeat split; reflexivity. Qed.
+
+(* the boolean `all_synced` of the examples means struct_equiv *)
+Theorem C03S_all_synced_sound : forall g, all_synced g = true ->
+  forall cl, In cl (sv_clients (g_srv g)) -> sc_authorized cl = true ->
+    struct_equiv (sent_of (sc_slot cl) (g_sent g)) (struct_of (g_srv g)).
+Proof. exact all_synced_sound. Qed.
+Print Assumptions C03S_all_synced_sound.
+
+(* (e) end to end with the client model (Repl/Client.v through Repl/Sys.v): the window of (a), every
+       update message delivered and applied by the real client model.  The structure of the client
+       (mapped entities that are alive and marked) is what `abs_apply` predicts, i.e. the server's
+       structure at the tick of the client's last update message. *)
+Module EndToEnd.
+Import Repl.Client Repl.Sys.
+
+Definition client_struct (c : client) : structure :=
+  flat_map (fun sc => match get_cent c (snd sc) with
+                      | Some x => if ce_alive x && ce_marker x then [(fst sc, map fst (ce_comps x))] else []
+                      | None => []
+                      end) (cl_s2c c).
+
+Definition sfr (tick : bool) (ops : list sop) : step := StSFrame tick 10 false ops [].
+Definition sync0 : list step := [StDeliver 0 true 0 All; StCFrame 0 []].
+Definition sys_window : list step :=
+  [StStart; StConnect 0 1200;
+   sfr true [SSpawn 1 true [(0, VNat 1); (1, VNat 2)]]] ++ sync0 ++
+  [sfr false [SInsert 1 2 (VNat 3)];
+   sfr false [SRemove 1 2; SRemove 1 0];
+   sfr false [SInsert 1 0 (VNat 7); SUnmark 1];
+   sfr false [SMark 1; SRemove 1 1]] ++ sync0.
+
+(* client update tick, client structure, server structure, server tick *)
+Definition sys_view (r : res sys) :=
+  match r with
+  | Ok y => Some (match al_get 0 (y_clients y) with Some c => (cl_upd_tick c, client_struct c) | None => (0, []) end,
+                  struct_of (y_server y), sv_tick (y_server y))
+  | _ => None
+  end.
+
+Example C03S_ex_end_to_end :
+  sys_view (run (sys_init ex_cfg 1) sys_window) = Some (1, [(1, [0; 1])], [(1, [0])], 1) /\
+  sys_view (run (sys_init ex_cfg 1) (sys_window ++ [sfr true []] ++ sync0)) = Some (2, [(1, [0])], [(1, [0])], 2) /\
+  (* the ghost of the server-only run predicts the same client structures *)
+  match grun ex_cfg ginit ex_window with Ok g => sent_of 0 (g_sent g) | _ => [] end = [(1, [0; 1])] /\
+  match grun ex_cfg ginit (ex_window ++ [fr true []]) with Ok g => sent_of 0 (g_sent g) | _ => [] end = [(1, [0])].
+Proof. vm_compute. repeat split; reflexivity. Qed.
+End EndToEnd.
